@@ -176,7 +176,7 @@ PROPS = {
                     dict(name="CsvScanPinD12", module="CsvScan.tla", cfg="CsvScanPinD12.cfg", expect_violation="Faithful"),
                     dict(name="CsvScanPinD18", module="CsvScan.tla", cfg="CsvScanPinD18.cfg", expect_violation="Faithful"),
                     dict(name="CsvScanEmit", module="CsvScan.tla", cfg="CsvScanEmit.cfg", emit=True, id_base=1000000),
-                    dict(name="CsvScanDeep", module="CsvScan.tla", cfg="CsvScanDeep.cfg", tier="thorough", timeout=3000, heap="24g")],
+                    dict(name="CsvScanDeep", module="CsvScan.tla", cfg="CsvScanDeep.cfg", tier="thorough", timeout=3000, heap="24g", extra=["-maxSetSize", "4000000"])],
                 text="Random well-formed RFC 4180 documents (quoting optional, doubled quotes, delimiters/LF/CRLF inside quotes, LF or CRLF row ends, with/without final line break, several "
                      "delimiters, fields crossing the 1 KiB scan buffer and its doublings, empty lines, short rows) x configurations (EmptyNull, IgnoreEmptyLines, Headers, Types/EnumValues incl. "
                      "invalid ones, RenameDuplicateColumns, MissingColumnNameAlias, RowCountHint with >1000 rows) are read by the real ReadCSV under several read fragmentations each (whole, 1 byte, "
